@@ -59,6 +59,9 @@ CLAIMED = {
  'C12': ('differential property-based testing + bounded-exhaustive enumeration against glibc fnmatch(3) (character-level, through transliteration of non-ASCII characters): the matcher behind -name/-path/-lname via a verif-hooks entry point, and end to end on real files and link targets',
          'Exploration: every pattern of <= 4 (thorough 5) symbols over {a b * ? [ ] ! - \\ . /} x every subject of <= 4 symbols over {a b . / - ] NL} in both case modes (~87 million pairs), plus random patterns with classes, ranges, escapes, every regex metacharacter as a literal and multi-byte text against matching-by-construction subjects and their one-edit neighbours, plus find -name/-iname/-path/-ipath/-wholename/-lname/-ilname on files and link targets named by the subjects.',
          'glibc fnmatch is the oracle on the compared domain; constructs POSIX leaves unspecified or where glibc deviates (listed in the evidence as discarded_outside_domain with counts) are not compared; a trailing lone backslash is judged by the statement directly.', 'DESIGN.md §3 C12'),
+ 'C17': ('property-based testing + bounded-exhaustive enumeration: regex ASTs rendered into each supported syntax vs an independent set-of-end-positions matcher over the AST (whole-path membership); subjects generated from the AST (members, prefixes, extensions); hook tier and end-to-end tier with positional -regextype',
+         'Exploration: every AST of <= 4 (thorough 5) nodes x every subject of <= 4 symbols x four syntaxes x both case modes (alternatives also reversed), hundreds of thousands of random ASTs (sets, ranges, intervals, alternation with prefix-sharing branches, literal + and ?) in six syntax names, and tens of thousands of find runs on files named by the subjects with -regextype before / inside / after parentheses or given twice.',
+         'The oracle decides membership of the entire path in the language of the AST; only constructs each syntax documents are rendered; nullable loop bodies and more than two nested unbounded repetitions are not generated at random (engine retry limit).', 'DESIGN.md §3 C17'),
 }
 hooks_commits = subprocess.run(['git','-C','/repo','log','--format=%H %s'],capture_output=True,text=True).stdout.splitlines()
 hook_shas = [l.split()[0] for l in hooks_commits if 'verif hooks' in l]
